@@ -171,41 +171,93 @@ def run(cx, rep):
     if len(pb) != 1:
         rep.anchor_missing("C09.1", "parse_and_bind")
     else:
-        tree = F.hir[pb[0].id]
-        D = Deriv(tree)
+        # the resolution of `export { A as B }` against the module's own declarations and imports: located by role
+        # (calls that register exports / look up local declarations) in any function of parse_and_bind's file
+        trees = [(g, F.hir[g.id]) for g in F.fns.values() if g.file == pb[0].file and g.id in F.hir
+                 and not (g.impl_self or "").startswith("swc_tools::bind_exports::ImportsVisitor")]
         n_ins = 0
-        for c in walk(tree["body"]):
-            if c["k"] == "MethodCall" and c["method"] in ("insert_type", "insert_value", "insert_unknown"):
-                n_ins += 1
-                fp = D.field_paths(c["args"][0])
-                bases = {p.rsplit(".", 1)[0] for p in fp if p.endswith(".renamed")}
-                rep.ob("C09.1", "bind/%s-key" % c["method"], bool(bases) and not any(b + ".name" in fp for b in bases),
-                       "parse_and_bind registers an export under %s; it must be the exported (renamed) name" % sorted(fp), "%s:%s" % (pb[0].file, c["line"]))
-        rep.floor("C09.1", "export registrations in parse_and_bind", n_ins, 7)
         n_get = 0
-        for c in walk(tree["body"]):
-            if c["k"] == "MethodCall" and c["method"] == "get" and any(x["k"] == "Field" and x["name"] in ("type_aliases", "enums", "interfaces", "exprs", "exprs_decls", "imports") for x in walk(c["recv"])):
-                n_get += 1
-                fp = D.field_paths(c["args"][0])
-                bases = {p.rsplit(".", 1)[0] for p in fp if p.endswith(".name") and p.rsplit(".", 1)[0] + ".renamed" not in fp}
-                unresolved_bases = {p.rsplit(".", 1)[0] for p in fp if p.endswith(".renamed")}
-                rep.ob("C09.1", "bind/local-lookup-key", not unresolved_bases and any(b.startswith("unresolved") or True for b in bases) and bool(bases),
-                       "local declarations must be looked up by the original name (derives from %s)" % sorted(fp), "%s:%s" % (pb[0].file, c["line"]))
+        ms = []
+        # the module's own declaration tables and its import table, by type (so the lookups are found whether
+        # the table is reached as a field or handed over as a parameter)
+        table_tys = set()
+        for adt, fields in (("swc_tools::bind_locals::ParsedModuleLocals", None), ("swc_tools::bind_exports::ImportsVisitor", ("imports",))):
+            a = F.adts.get(adt)
+            if a is None:
+                rep.anchor_missing("C09.1", adt)
+                continue
+            for fl in a["variants"][0]["fields"]:
+                if (fields is None or fl["name"] in fields) and "HashMap<" in fl["ty"]:
+                    table_tys.add(fl["ty"])
+        for g, tree in sorted(trees, key=lambda t: t[0].id):
+            D = Deriv(tree)
+            for c in walk(tree["body"]):
+                if c["k"] == "MethodCall" and c["method"] in ("insert_type", "insert_value", "insert_unknown"):
+                    n_ins += 1
+                    fp = D.field_paths(c["args"][0])
+                    bases = {p.rsplit(".", 1)[0] for p in fp if p.endswith(".renamed")}
+                    rep.ob("C09.1", "bind/%s-key" % c["method"], bool(bases) and not any(b + ".name" in fp for b in bases),
+                           "%s registers an export under %s; it must be the exported (renamed) name" % (g.name, sorted(fp)), "%s:%s" % (g.file, c["line"]))
+                if c["k"] == "MethodCall" and c["method"] == "get" and (c.get("recv_ty") or "").replace("&mut ", "").lstrip("&") in table_tys:
+                    n_get += 1
+                    fp = D.field_paths(c["args"][0])
+                    bases = {p.rsplit(".", 1)[0] for p in fp if p.endswith(".name") and p.rsplit(".", 1)[0] + ".renamed" not in fp}
+                    unresolved_bases = {p.rsplit(".", 1)[0] for p in fp if p.endswith(".renamed")}
+                    rep.ob("C09.1", "bind/local-lookup-key", not unresolved_bases and bool(bases),
+                           "local declarations must be looked up by the original name (derives from %s)" % sorted(fp), "%s:%s" % (g.file, c["line"]))
+                if c["k"] == "Match" and (c.get("scrut_adt") or "").endswith("ImportReference"):
+                    ms.append((g, c))
+        rep.floor("C09.1", "export registrations in parse_and_bind", n_ins, 7)
         rep.floor("C09.1", "local lookups in parse_and_bind", n_get, 6)
         # ------------------------------------------------------------ C09.3
         rep.rule("C09.3", "re-exporting an imported name registers an export for every kind of import")
-        ms = [n for n in walk(tree["body"]) if n["k"] == "Match" and (n.get("scrut_adt") or "").endswith("ImportReference")]
-        rep.ob("C09.3", "site", len(ms) == 1, "expected one match over ImportReference in parse_and_bind", pb[0].loc())
-        for m in ms:
+        rep.ob("C09.3", "site", len(ms) == 1, "expected one match over ImportReference in the export binder (found %d)" % len(ms), pb[0].loc())
+        for g, m in ms:
             for a in m["arms"]:
                 v = (a["pat"].get("def") or "_").rsplit("::", 1)[-1]
                 reg = any(x["k"] == "MethodCall" and x["method"] in ("insert_type", "insert_value", "insert_unknown") for x in walk(a["body"]))
                 rep.ob("C09.3", "reexport-import/%s" % v, reg,
                        "`import .. from './a'; export { X }` with an ImportReference::%s binding registers no export: the name resolves in TypeScript but is reported as unresolved here" % v,
-                       "%s:%s" % (pb[0].file, a["line"]), sample={"import_kind": v, "registers_export": reg})
+                       "%s:%s" % (g.file, a["line"]), sample={"import_kind": v, "registers_export": reg})
     # ---------------------------------------------------------------- C09.5
     rep.rule("C09.5", "a name taken from an import / re-export reference is resolved in the other file's export table")
     n_addr = 0
+
+    def vis_of(ve):
+        return [x.get("def") for x in walk(ve) if x["k"] == "Path" and "Visibility::" in (x.get("def") or "")]
+
+    # private helpers that build an address from their parameters: fn id -> (index of the parameter the file comes
+    # from, visibility paths of the literal, index of the parameter the visibility comes from)
+    builders = {}
+    for gid in sorted(F.hir):
+        g = F.fns.get(gid)
+        if g is None or g.kind == "Closure":
+            continue
+        tree = F.hir[gid]
+        sts = [n for n in walk(tree["body"]) if n["k"] == "Struct" and (n.get("def") or "").endswith("ModuleItemAddress")]
+        if len(sts) != 1 or not (g.output or "").endswith("ModuleItemAddress"):
+            continue
+        plids = [p.get("lid") if p["k"] == "P.Binding" else None for p in tree["params"]]
+        Dg = Deriv(tree)
+        fe, ve = struct_field(sts[0], "file"), struct_field(sts[0], "visibility")
+        if fe is None or ve is None:
+            continue
+
+        def param_roots(e):
+            out = set()
+            for name, lid in lids_in(e):
+                if lid in plids:
+                    out.add(plids.index(lid))
+                for e2 in Dg.src.get(lid, []):
+                    for n2, l2 in lids_in(e2):
+                        if l2 in plids:
+                            out.add(plids.index(l2))
+            return out
+        fi = param_roots(fe)
+        if len(fi) == 1:
+            vi = param_roots(ve)
+            builders[g.id] = (next(iter(fi)), vis_of(ve), next(iter(vi)) if len(vi) == 1 and not vis_of(ve) else None)
+
     for gid in sorted(F.hir):
         f = F.fns.get(gid)
         if f is None or not (f.file or "").endswith("frontend/mod.rs"):
@@ -230,26 +282,37 @@ def run(cx, rep):
         if not ref_binders:
             continue
         D = Deriv(tree)
+        sites = []
         for st in walk(tree["body"]):
             if st["k"] == "Struct" and (st.get("def") or "").endswith("ModuleItemAddress"):
                 fe = struct_field(st, "file")
                 ve = struct_field(st, "visibility")
-                if fe is None or ve is None:
+                if fe is not None and ve is not None:
+                    sites.append((st, fe, vis_of(ve)))
+            elif st["k"] in ("Call", "MethodCall"):
+                tgt = F._callee_gid(f.crate, st.get("callee") or "")
+                b = builders.get(tgt)
+                if b is None:
                     continue
-                src = [ref_binders[lid] for name, lid in lids_in(fe) if lid in ref_binders]
-                if not src:
-                    # through one let-alias
-                    for name, lid in lids_in(fe):
-                        for e in D.src.get(lid, []):
-                            src += [ref_binders[l2] for n2, l2 in lids_in(e) if l2 in ref_binders]
-                if not src:
+                args = st["args"] if st["k"] == "Call" else [st["recv"]] + st["args"]
+                if b[0] >= len(args):
                     continue
-                n_addr += 1
-                vis = [x.get("def") for x in walk(ve) if x["k"] == "Path" and "Visibility::" in (x.get("def") or "")]
-                ok = vis == ["Visibility::Export"]
-                rep.ob("C09.5", "%s/%s" % (f.id.rsplit("::", 1)[-1] + "@" + (f.impl_self or "").split("<")[0].rsplit("::", 1)[-1], src[0][0]), ok,
-                       "%s builds the address of a name in ANOTHER file (taken from %s) with %s: names reached through an import or re-export must be looked up among that file's exports, otherwise a private declaration of the same name is bound or the name is reported missing" % (
-                           f.id, src[0][0], vis), "%s:%s" % (f.file, st["line"]), sample={"fn": f.id.rsplit("::", 1)[-1], "reference": src[0][0], "visibility": vis})
+                vis = b[1] if b[2] is None else (vis_of(args[b[2]]) if b[2] < len(args) else [])
+                sites.append((st, args[b[0]], vis))
+        for st, fe, vis in sites:
+            src = [ref_binders[lid] for name, lid in lids_in(fe) if lid in ref_binders]
+            if not src:
+                # through one let-alias
+                for name, lid in lids_in(fe):
+                    for e in D.src.get(lid, []):
+                        src += [ref_binders[l2] for n2, l2 in lids_in(e) if l2 in ref_binders]
+            if not src:
+                continue
+            n_addr += 1
+            ok = vis == ["Visibility::Export"]
+            rep.ob("C09.5", "%s/%s" % (f.id.rsplit("::", 1)[-1] + "@" + (f.impl_self or "").split("<")[0].rsplit("::", 1)[-1], src[0][0]), ok,
+                   "%s builds the address of a name in ANOTHER file (taken from %s) with %s: names reached through an import or re-export must be looked up among that file's exports, otherwise a private declaration of the same name is bound or the name is reported missing" % (
+                       f.id, src[0][0], vis), "%s:%s" % (f.file, st["line"]), sample={"fn": f.id.rsplit("::", 1)[-1], "reference": src[0][0], "visibility": vis})
     rep.floor("C09.5", "cross-file addresses", n_addr, 6)
     # ---------------------------------------------------------------- C09.2
     rep.rule("C09.2", "identity of named types carries the file: derived Eq/Ord/Hash over all fields")
